@@ -272,6 +272,10 @@ def unmap(prog, rep, fam, mi):
         # does not, the fixed value must be put back after the fit.
         tr = scipyinfo.fit_transforms(dist).get(sn)
         inst2 = f"{fam.ci.qualname}._fit_mle:result{i}={sn}:fixed-kept"
+        if tr is None and kind == "exp":
+            # fixed as fscale = exp(f_p), read back as log(scale): log(exp(v)) is v only up to an ABSOLUTE error of an ulp of 1,
+            # which is far more than 1e-12 relative for a small |v|
+            tr = (None, f"{p} = log(exp(f_{p})) through the {sn} slot")
         if tr is None:
             rep.ok("C11.unmap", inst2, site, f"scipy.stats.{dist}.fit hands a fixed '{sn}' back unchanged (no rewriting override in the scipy sources)")
             continue
@@ -280,10 +284,11 @@ def unmap(prog, rep, fam, mi):
                  and mi.cfg.reachable(mi.cfg.node(mi.fit_stmt), mi.cfg.node(st_[3]))]
         restored = [st_ for st_ in after if st_[1] == fp and ("not", ("isnone", fp)) in st_[2]]
         spoiled = [st_ for st_ in after if st_ not in restored and any(mi.cfg.reachable(mi.cfg.node(r_[3]), mi.cfg.node(st_[3])) for r_ in restored)]
-        rep.check(bool(restored) and not spoiled and kind == "id", "C11.unmap", inst2, fn.where(restored[0][3]) if restored else site,
+        rep.check(bool(restored) and not spoiled, "C11.unmap", inst2, fn.where(restored[0][3]) if restored else site,
                   f"self.{p} = self.f_{p} after the fit where {p} is fixed (scipy rewrites the value: {tr[1]})",
-                  f"scipy.stats.{dist}.fit does not return a fixed '{sn}' unchanged (scipy/stats/_continuous_distns.py:{tr[0]}: {tr[1]}), and _fit_mle stores the "
-                  f"returned value in self.{p}: a fixed {p} is not its fixed value after fitting unless 'self.{p} = self.f_{p}' follows the fit under 'self.f_{p} is not None'")
+                  (f"scipy.stats.{dist}.fit does not return a fixed '{sn}' unchanged (scipy/stats/_continuous_distns.py:{tr[0]}: {tr[1]})" if tr[0] is not None else
+                   f"the fixed value does not survive the round trip {tr[1]} to 1e-12 relative (absolute error of one ulp of 1: f_{p} = 1e-8 comes back 1.1e-8 off)")
+                  + f", and _fit_mle stores the returned value in self.{p}: a fixed {p} is not its fixed value after fitting unless 'self.{p} = self.f_{p}' follows the fit under 'self.f_{p} is not None'")
 
 
 # ---------------------------------------------------------------------- lsq
@@ -590,6 +595,7 @@ def generic(prog, rep, fam):
     good = False
     fit_ok = False
     unpack_ok = False
+    keep_ok = False
     for st in cfg_of(mf).all_stmts():
         if isinstance(st, ast.Assign) and isinstance(st.targets[0], ast.Subscript):
             k = bm.term(st.targets[0].slice, st)
@@ -610,6 +616,15 @@ def generic(prog, rep, fam):
                 nm, val = t[2][1], t[2][2]
                 if nm[0] == "sub" and nm[1] == ("attr", SELF, "_param_names") and val[0] == "sub" and val[2] == nm[2]:
                     unpack_ok = True
+                    keep_ok = False     # the returned value is stored whether or not the parameter is fixed
+                if nm[0] == "sub" and nm[1] == ("attr", SELF, "_param_names") and val[0] == "ifexp":
+                    # returned value where the parameter is free, its fixed value where it is fixed
+                    tst, a_, b_ = val[1], val[2], val[3]
+                    if tst[0] == "not":
+                        tst, a_, b_ = tst[1], b_, a_
+                    fixed_of = lambda x_: any(w_[0] == "fstr" and any(c_ in (("const", "f"), ("const", "f_")) for c_ in w_[1]) for w_ in walk(x_))
+                    if tst[0] == "isnone" and tst[1] == b_ and fixed_of(b_) and a_[0] == "sub" and a_[2] == nm[2]:
+                        unpack_ok = keep_ok = True
     if not good:
         # the same dictionary built in one expression (a comprehension over the parameter names, possibly through a
         # none-dropping helper): ONE symbolic entry f"f{name}" -> getattr(self, f"f_{name}") under 'is not None'
@@ -630,5 +645,8 @@ def generic(prog, rep, fam):
               "fit must be called on self.scipy_dist with the unmodified sample and the fixed-parameter keywords")
     rep.check(unpack_ok, "C11.generic", f"{ci.qualname}._fit_mle:unpack", mf.where(), "result i -> parameter name i",
               "the fit result must be written back pairwise onto self._param_names in order")
+    rep.check(keep_ok, "C11.generic", f"{ci.qualname}._fit_mle:fixed-kept", mf.where(), "a fixed parameter is written back as its fixed value, not as what scipy returns",
+              "the wrapper may wrap ANY scipy family, also one whose own fit rewrites a fixed keyword (vonmises wraps loc into [-pi, pi] and returns scale 1): "
+              "a fixed parameter must be written back as its fixed value, not as the value scipy returns")
     # f-keyword names: 'f'+name is valid for shapes (f<shape>) and for loc/scale (floc/fscale): grammar anchor
     rep.ok("C11.generic", f"{ci.qualname}:grammar", "scipy/_distn_infrastructure.py", "scipy accepts f<shape-name>, floc, fscale (anchors found in the scipy sources)")
